@@ -19,6 +19,8 @@ const (
 	lcComment        // "#" + non-'!' + text
 	lcBlank          // ""
 	lcCode           // non-'#', non-space first byte
+	lcEnd            // the line "__END__" (e.g. inside a here-doc or string, or a real trailer)
+	lcData           // the line "__DATA__"
 )
 
 func isSpaceByte(b byte) bool {
@@ -32,6 +34,10 @@ func mkLine(class, n int, last bool) []byte {
 		return []byte("#")
 	case lcBlank:
 		return []byte{}
+	case lcEnd:
+		return []byte("__END__")
+	case lcData:
+		return []byte("__DATA__")
 	}
 	b := nondetBytes(n, 0)
 	for i := range b {
@@ -103,7 +109,7 @@ func HarnessC16Text() {
 		c := lcComment
 		switch {
 		case shape == 0:
-			c = nondetChoice(5)
+			c = nondetChoice(7)
 		case shape == 2 && i == 0:
 			c = lcShebang
 		}
